@@ -20,12 +20,18 @@ def run(ctx):
     sessions = g.json_lines("GEN")
     g2 = ctx.tlc("MC_Paging", "Gen_Paging.cfg", consts={"Shape": '"chain"', "MaxPages": 6 if q else 8, "MaxItems": 1, "MaxN": 4, "MaxCalls": 1})
     sessions += [s for i, s in enumerate(g2.json_lines("GEN")) if s["sizes"] and max(s["sizes"]) >= 3]
+    # two-call sessions over plain chains (a request ending exactly at a page end, then empties, then more)
+    g3 = ctx.tlc("MC_Paging", "Gen_Paging.cfg", consts={"Shape": '"chain"', "MaxPages": 7, "MaxItems": 1, "MaxN": 3, "MaxCalls": 2})
+    two = [s for s in g3.json_lines("GEN") if len(s["sizes"]) == 2 and min(s["sizes"]) >= 1 and len(s["pages"]) >= 5]
+    import random as _r
+    _r.Random(ctx.seed + 1).shuffle(two)
+    sessions += two[:2500 if q else 25000]
     if len(sessions) < 100:
         raise vlib.Inconclusive("generator produced %d sessions" % len(sessions))
-    if q and len(sessions) > 6000:
+    if q and len(sessions) > 9000:
         import random
         random.Random(ctx.seed).shuffle(sessions)
-        sessions = sessions[:6000]
+        sessions = sessions[:9000]
     evs, rc, txt = run_harness(ctx, "pub", "TestVerifPaging", {"sessions": sessions, "random": 300 if q else 3000}, timeout=2400, allow_fail=True)
     crashed = rc != 0
     bad, r2 = vlib.judge(ctx, "T_Paging", "T_Paging.cfg", evs)
@@ -48,7 +54,20 @@ def run(ctx):
         path = vlib.save_replay(ctx.pid, "s%d" % e["sid"], e)
         res.violations.append((sig, path, "layout %s harvested with %s: %s" % (
             [(p["n"], p["next"]) for p in e["pages"]], [c["n"] for c in e["calls"]], b["why"])))
-    if crashed:
+    hung = [e for e in evs if e["ev"] == "hang"]
+    if crashed and hung:
+        begun = {e["sid"]: e for e in evs if e["ev"] == "begin"}
+        s = begun[hung[-1]["sid"]]
+        # reproduce: the same session alone in a fresh process
+        evs2, rc2, _ = run_harness(ctx, "pub", "TestVerifPaging", {"sessions": [{"pages": s["pages"], "sizes": s["sizes"]}] * 4, "random": 0},
+                                   timeout=300, allow_fail=True, name="paging-hang-repro")
+        if rc2 != 0 and any(e["ev"] == "hang" for e in evs2):
+            path = vlib.save_replay(ctx.pid, "hang-s%d" % s["sid"], s)
+            res.violations.append(({"monitor": "hang", "why": "harvest did not return"}, path,
+                                   "harvesting layout %s with sizes %s did not return within 6 s (reproduced)" % (s["pages"], s["sizes"])))
+        else:
+            raise vlib.Inconclusive("a paging session hung once but did not reproduce: %s" % s)
+    elif crashed:
         begun = [e for e in evs if e["ev"] == "begin"]
         last = begun[-1] if begun else {}
         finished = {e["sid"] for e in done}
